@@ -554,4 +554,128 @@ def floodRun (s : Flood) : List FloodOp → Flood × Option Violation
     let r := floodStep s op
     if r.2.isSome then r else floodRun r.1 ops
 
+
+/-! ## stream states: which frames `handle_header_state` accepts on which stream -/
+
+def STREAM_CLOSED : Nat := 5
+def REFUSED_STREAM : Nat := 7
+
+/-- the state of the target stream id as the *peer* knows it (RFC 9113 §5.1),
+    server position -/
+inductive StreamSt where
+  /-- never used, above every id the peer has used -/
+  | idleAbove
+  /-- never used, but a higher id has been used: implicitly closed (§5.1.1) -/
+  | closedBelow
+  /-- request and response both ended with END_STREAM -/
+  | closedEndStream
+  /-- the peer reset it -/
+  | closedPeerRst
+  /-- sozu refused it with RST_STREAM(REFUSED_STREAM): concurrent-stream limit,
+      draining after GOAWAY, or no buffer; its id is above every accepted stream -/
+  | refused
+  /-- the peer sent END_STREAM, the response has not ended -/
+  | halfClosedRemote
+  /-- HEADERS without END_STREAM received, nothing ended -/
+  | open
+deriving DecidableEq, Repr
+
+inductive FrameKind where
+  | data | headers | windowUpdate | rstStream | priority | continuation
+deriving DecidableEq, Repr
+
+inductive StreamOut where
+  /-- processed or silently discarded: the connection goes on -/
+  | handled
+  /-- RST_STREAM(code) on that stream, the connection goes on -/
+  | streamError (code : Nat)
+  /-- GOAWAY(code) -/
+  | connError (code : Nat)
+deriving DecidableEq, Repr
+
+def StreamOut.isConnError : StreamOut → Bool
+  | .connError _ => true
+  | _ => false
+
+/-- what `handle_header_state` consults about the frame's stream id -/
+structure StreamView where
+  /-- the id is in `self.streams` -/
+  known : Bool
+  /-- `front_received_end_of_stream` of that stream -/
+  receivedEos : Bool
+  /-- `stream_id > self.last_stream_id` (advances when a stream is created) -/
+  aboveLast : Bool
+  /-- `stream_id <= self.highest_peer_stream_id` (advances on creation and on every refusal) -/
+  leHighest : Bool
+  /-- the id is in `self.rst_sent`: sozu already queued a RST_STREAM for it (a second one is deduplicated) -/
+  rstSent : Bool
+deriving DecidableEq, Repr
+
+def viewOf : StreamSt → StreamView
+  | .idleAbove => { known := false, receivedEos := false, aboveLast := true, leHighest := false, rstSent := false }
+  | .closedBelow => { known := false, receivedEos := false, aboveLast := false, leHighest := true, rstSent := false }
+  | .closedEndStream => { known := false, receivedEos := true, aboveLast := false, leHighest := true, rstSent := false }
+  | .closedPeerRst => { known := false, receivedEos := false, aboveLast := false, leHighest := true, rstSent := false }
+  | .refused => { known := false, receivedEos := false, aboveLast := true, leHighest := true, rstSent := true }
+  | .halfClosedRemote => { known := true, receivedEos := true, aboveLast := false, leHighest := true, rstSent := false }
+  | .open => { known := true, receivedEos := false, aboveLast := false, leHighest := true, rstSent := false }
+
+/-- `handle_header_state` (server position, odd stream id != 0), branch for
+    branch: stray CONTINUATION first, then the known-stream half-closed test,
+    then new-stream HEADERS, PRIORITY passes, then closed (`<= highest_peer_stream_id`)
+    versus idle. -/
+def headerVerdict (v : StreamView) (fk : FrameKind) : StreamOut :=
+  if fk = .continuation then .connError PROTOCOL_ERROR
+  else if v.known then
+    if (fk = .data ∨ fk = .headers) ∧ v.receivedEos = true then .connError STREAM_CLOSED else .handled
+  else if fk = .headers ∧ v.aboveLast = true then .handled
+  else if fk = .priority then .handled
+  else if v.leHighest then
+    match fk with
+    | .windowUpdate | .rstStream => .handled
+    | .data => if v.rstSent then .handled else .streamError STREAM_CLOSED
+    | _ => .connError STREAM_CLOSED
+  else .connError PROTOCOL_ERROR
+
+/-- What RFC 9113 §5.1 / §5.1.1 / §6.4 / §6.10 allow as an answer (written from
+    the RFC; where the text leaves a choice, or RFC 7540 allowed the stricter
+    connection error, every choice is listed). -/
+def rfcAllowed (st : StreamSt) (fk : FrameKind) : List StreamOut :=
+  match fk with
+  | .continuation => [.connError PROTOCOL_ERROR]
+  | .priority => [.handled]
+  | _ =>
+    match st with
+    | .idleAbove =>
+      if fk = .headers then [.handled] else [.connError PROTOCOL_ERROR]
+    | .closedBelow =>
+      match fk with
+      | .headers => [.connError PROTOCOL_ERROR, .connError STREAM_CLOSED]
+      | .data => [.streamError STREAM_CLOSED, .connError STREAM_CLOSED, .connError PROTOCOL_ERROR]
+      | _ => [.handled, .streamError STREAM_CLOSED]
+    | .closedEndStream =>
+      match fk with
+      | .headers | .data => [.connError STREAM_CLOSED, .streamError STREAM_CLOSED]
+      | _ => [.handled, .streamError STREAM_CLOSED]
+    | .closedPeerRst =>
+      match fk with
+      | .headers => [.streamError STREAM_CLOSED, .connError STREAM_CLOSED]
+      | .data => [.streamError STREAM_CLOSED]
+      | _ => [.handled, .streamError STREAM_CLOSED]
+    | .refused =>
+      -- "MUST ignore frames that it receives on closed streams after it has sent a RST_STREAM"
+      match fk with
+      | .headers => [.handled, .streamError STREAM_CLOSED, .streamError REFUSED_STREAM, .connError PROTOCOL_ERROR,
+                     .connError STREAM_CLOSED]
+      | .data => [.handled, .streamError STREAM_CLOSED]
+      | _ => [.handled]
+    | .halfClosedRemote =>
+      match fk with
+      | .headers | .data => [.streamError STREAM_CLOSED, .connError STREAM_CLOSED]
+      | _ => [.handled]
+    | .open =>
+      match fk with
+      | .headers => [.handled, .streamError PROTOCOL_ERROR, .connError PROTOCOL_ERROR]
+      | _ => [.handled]
+
 end Sozu.H2Wire
